@@ -217,6 +217,95 @@ def store_switch_times_tail(pid, empty):
     return c
 
 
+def store_switch_times_head(pid):
+    """System.store_switch_times up to its merge loop: the candidate times handed to the merge loop are sorted ascending, paired with
+    model names, not before the current time, and every one of them is EXACTLY t, t - eps or t + eps for a time t reported by
+    get_times() of a model whose class_name is the paired name (so that TimerParam.is_time, which compares with ==, recognises it).
+    ``sched(x, name)`` is the least relation containing those triples: it is assumed only of them, when get_times() is called."""
+    SCHED = z3.Function('scheduled', R, K, Bo)
+    E = 'models.$e'
+
+    def get_times(ex, st, args, kw, node):
+        t = TArr().make(st, 'times')
+        c = st.content(t)
+        nm = st.load(E + '.class_name').term
+        eps = st.env['eps'].val
+        k = fresh('k', I)
+        st.assume(z3.ForAll([k], z3.And(SCHED(c.vals[k], nm), SCHED(c.vals[k] - eps, nm), SCHED(c.vals[k] + eps, nm))))
+        return t
+
+    def np_array(ex, st, args, kw, node):
+        if len(args) == 1 and isinstance(args[0], Ref) and isinstance(st.content(args[0]), ListC) and not st.content(args[0]).items:
+            return st.new_ref(ArrC(z3.K(I, z3.RealVal(0)), z3.IntVal(0), None), 'empty')
+        if len(args) == 1 and isinstance(args[0], Ref) and isinstance(st.content(args[0]), ArrC):
+            return args[0]
+        raise Unsupported('np.array(%r)' % (args,))
+
+    def ravel(ex, st, args, kw, node):
+        return args[0]
+
+    def append(ex, st, args, kw, node):
+        from pyvc.externals import np_concatenate
+        return np_concatenate(ex, st, [(args[0], args[1])], {}, node)
+
+    def argsort(ex, st, args, kw, node):
+        a = st.content(args[0])
+        p = TArr(kind='int', n=a.n).make(st, 'argsort')
+        pc = st.content(p)
+        i, j = fresh('i', I), fresh('j', I)
+        st.assume(z3.ForAll([i], z3.Implies(z3.And(i >= 0, i < a.n), z3.And(pc.vals[i] >= 0, pc.vals[i] < a.n))))
+        st.assume(z3.ForAll([i, j], z3.Implies(z3.And(i >= 0, i < j, j < a.n), a.vals[z3.ToInt(pc.vals[i])] <= a.vals[z3.ToInt(pc.vals[j])])))
+        return p
+
+    def astype(ex, st, args, kw, node):
+        c = st.content(args[0]) if isinstance(args[0], Ref) else None
+        if isinstance(c, ArrC) and c.kind == 'int' and len(args) == 2 and isinstance(args[1], Func) and args[1].name == 'int':
+            return args[0]
+        raise Unsupported('astype(%r)' % (args[1:],))
+
+    def where(ex, st, args, kw, node):
+        if len(args) != 1 or not (isinstance(args[0], Ref) and isinstance(st.content(args[0]), ArrC)):
+            raise Unsupported('np.where(%r)' % (args,))
+        m = st.content(args[0])
+        n = fresh('n_selected', I)
+        st.assume(z3.And(n >= 0, n <= m.n))
+        idx = TArr(kind='int', n=n).make(st, 'where')
+        ic = st.content(idx)
+        i, j = fresh('i', I), fresh('j', I)
+        st.assume(z3.ForAll([i], z3.Implies(z3.And(i >= 0, i < n), z3.And(ic.vals[i] >= 0, ic.vals[i] < m.n, m.vals[z3.ToInt(ic.vals[i])] != 0))))
+        st.assume(z3.ForAll([i, j], z3.Implies(z3.And(i >= 0, i < j, j < n), ic.vals[i] < ic.vals[j])))
+        return (idx,)
+
+    def inv(v):
+        out, names = v.st.content(v.st.env['out']), v.st.content(v.st.env['names'])
+        if isinstance(names, ListC) and not names.items:
+            return out.n == 0
+        k = fresh('k', I)
+        return z3.And(out.n == names.n, z3.ForAll([k], z3.Implies(z3.And(k >= 0, k < out.n), SCHED(out.vals[k], names.arr[k]))))
+
+    def post(old, new, res):
+        if 'out' not in new.st.env or 'names' not in new.st.env:
+            return False
+        out, names = new.st.content(new.st.env['out']), new.st.content(new.st.env['names'])
+        t = old.z('self.dae.t')
+        k, a, b = fresh('k', I), fresh('a', I), fresh('b', I)
+        return z3.And(out.n == names.n,
+                      z3.ForAll([k], z3.Implies(z3.And(k >= 0, k < out.n), z3.And(SCHED(out.vals[k], names.arr[k]), out.vals[k] >= t))),
+                      z3.ForAll([a, b], z3.Implies(z3.And(a >= 0, a < b, b < out.n), out.vals[a] <= out.vals[b])))
+    c = Contract(FS, 'System.store_switch_times', pid=pid, params={'self': TObj(), 'models': TColl(), 'eps': TReal()},
+                 schema={'self.dae.t': TReal(), 'models': TColl(), E + '.class_name': TStr()},
+                 requires=[('not-a-flat-run', lambda v: True)],
+                 calls={E + '.get_times': get_times, 'np.array': np_array, '<value>.ravel': ravel, 'np.append': append, 'np.argsort': argsort,
+                        '<value>.astype': astype, 'np.where': where, 'self.options.get': lambda ex, st, a, k, n: False},
+                 loops={0: Loop(inv=[('every-candidate-is-exactly-t,t-eps-or-t+eps-of-the-paired-model', inv)],
+                                frame=['$instance', '$times', E + '.*'], rebind={'out': TArr(), 'names': TSeq(elem=K)})},
+                 ensures=[('candidates:exact-event-times(+-eps)-paired-with-their-model,not-before-now,ascending', post)], modifies=[])
+    c.body_to = 'for i, j in zip(out, names)'
+    c.tag = 'head'
+    c.check_bounds = True
+    return c
+
+
 def replay_store_switch_times(obligation, model, meta):
     """native run of the real System.store_switch_times on stub models (coincident times across models, repeated times,
     times before the current time); returns the first input whose result breaks the contract"""
@@ -227,7 +316,7 @@ def replay_store_switch_times(obligation, model, meta):
     from andes.system import System
     eps = 1e-4
     scenarios = []
-    for ta, tb in itertools.product([[], [1.0], [1.0, 2.0], [2.0, 2.0], [0.5]], [[1.0], [2.0, 1.0], [3.0]]):
+    for ta, tb in itertools.product([[], [1.0], [1.0, 2.0], [2.0, 2.0], [0.5], [1.0 / 9.0, 0.6180339887498949]], [[1.0], [2.0, 1.0], [3.0], [0.7071067811865476]]):
         for t0 in (0.0, 1.0):
             scenarios.append(({'A': ta, 'B': tb}, t0))
     for times, t0 in scenarios:
@@ -605,10 +694,12 @@ class _V0:
 
 
 def add_obligations(pack, tier, pid='C06'):
-    pack.assume('System.store_switch_times is verified from its merge loop on (mechanical slice: the statements before '
-                '`for i, j in zip(out, names)` are dropped and their results `out`, `names` are arbitrary inputs constrained only by '
-                'what np.argsort / the >= dae.t selection guarantee: ascending, paired)')
-    items = [(store_switch_times_tail(pid, True), None, replay_store_switch_times), (store_switch_times_tail(pid, False), WIT_F28, replay_store_switch_times),
+    pack.assume('System.store_switch_times is verified in two mechanical slices cut at `for i, j in zip(out, names)`: the head (collection, sort, '
+                'selection) guarantees what the tail (merge loop) requires of `out`, `names`: ascending, paired; not decided for the head: that no '
+                'reported time is dropped (the bounded event runs check that every enabled event acts)',
+                'np.argsort returns in-range indices that order the array ascending; np.where(mask)[0] returns the increasing in-range indices at '
+                'which the mask holds; np.append(a, b) is a followed by b (assumed numpy contracts)')
+    items = [(store_switch_times_head(pid), None, replay_store_switch_times), (store_switch_times_tail(pid, True), None, replay_store_switch_times), (store_switch_times_tail(pid, False), WIT_F28, replay_store_switch_times),
              (fn_tds.tds_init(pid),), (is_time(pid),), (model_switch_action(pid),), (system_switch_action(pid),),
              (toggle_u_switch(pid),), (fault_apply(pid),), (fault_clear(pid),), (alter_field(pid),)]
     run_contracts(pack, items)
